@@ -351,7 +351,7 @@ fn verif_pure_bundle()
 {
     quiet();
     let mut t = Tally::new("B-P-bundle-meaning");
-    let tokens = ["gen", "lib", "\tparser.c", "\tlexer.c", "\t\tdeep.c", "\tsub", "", "gen\t", "\tparser.c\t"];
+    let tokens = ["gen", "lib", "\tparser.c", "\tlexer.c", "\t\tdeep.c", "\tsub", "", "gen\t", "\tparser.c\t", "\u{8a69}"];      /*  the last one: a non-ASCII (three-byte) directory name */
     for len in 1..=5usize
     {
         let total = tokens.len().pow(len as u32);
